@@ -178,12 +178,147 @@ pub proof fn lemma_writer_frag_valid(ab: AssemblyBuffer, df: &DataFrag, full: Se
     assert(1 * (fs as int) == fs) by (nonlinear_arith);
 }
 
-// Link between the contract of FragmentAssembler::new_datafrag and `step`: with the assembler's
-// fragment size equal to the writer's, processing a writer-made DATAFRAG is one `step`.
+// Link between the contract of FragmentAssembler::new_datafrag and `step`: processing a writer-made
+// DATAFRAG is one `step` on the sample's own (buffer, bitmap); a sample seen for the first time
+// starts from `fresh`.
 pub proof fn lemma_after_is_step(fa: FragmentAssembler, df: &DataFrag, full: Seq<u8>, fs: int, k: int)
     requires writer_frag(df, full, fs, k), fa.fragment_size == fs,
     ensures
-        fa.after_of(df) == step(fa.before_of(df), full, fs, k),                         // [frag.lemma.link]
+        fa.same_fs(df),                                                                                  // [frag.lemma.link]
+        (fa.after_buf(df), fa.after_bits(df)) == step(fa.before_of(df), full, fs, k),                    // [frag.lemma.link]
         !fa.assembly_buffers@.contains_key(df.writer_sn) ==> fa.before_of(df) == fresh(full.len() as int, fs),   // [frag.lemma.link]
 {
+}
+
+// ---------------------------------------------------------------------------------------------
+// Trace level: one remote writer, many samples, fragments of different samples interleaved in any
+// order with any duplication.  MState.bufs is FragmentAssembler::view_bufs(); m_step is the
+// whole-view postcondition [frag.view] + [frag.deliver] of new_datafrag for a writer-made DATAFRAG
+// (lemma_view_is_m_step).  `pend` is ghost bookkeeping: the fragment numbers of a sample that have
+// arrived since that sample was last delivered.
+// ---------------------------------------------------------------------------------------------
+pub struct MState {
+    pub bufs: Map<SequenceNumber, (Seq<u8>, Seq<bool>)>,
+    pub pend: Map<SequenceNumber, Seq<int>>,
+}
+pub open spec fn covers(ks: Seq<int>, n: int) -> bool { forall|k: int| 1 <= k <= n ==> ks.contains(k) }
+pub open spec fn m_before(st: MState, full: Seq<u8>, fs: int, sn: SequenceNumber) -> (Seq<u8>, Seq<bool>) {
+    if st.bufs.contains_key(sn) { st.bufs[sn] } else { fresh(full.len() as int, fs) }
+}
+pub open spec fn m_pend(st: MState, sn: SequenceNumber) -> Seq<int> {
+    if st.pend.contains_key(sn) { st.pend[sn] } else { Seq::<int>::empty() }
+}
+// arrival of the writer's fragment k of sample sn (whose wire bytes are samples[sn]); second
+// component: what is delivered to the reader
+pub open spec fn m_step(st: MState, samples: Map<SequenceNumber, Seq<u8>>, fs: int, sn: SequenceNumber, k: int) -> (MState, Option<Seq<u8>>) {
+    let after = step(m_before(st, samples[sn], fs, sn), samples[sn], fs, k);
+    if all_set(after.1) {
+        (MState { bufs: st.bufs.remove(sn), pend: st.pend.remove(sn) }, Some(after.0))
+    } else {
+        (MState { bufs: st.bufs.insert(sn, after), pend: st.pend.insert(sn, m_pend(st, sn).push(k)) }, None::<Seq<u8>>)
+    }
+}
+pub open spec fn m_run(samples: Map<SequenceNumber, Seq<u8>>, fs: int, tr: Seq<(SequenceNumber, int)>) -> MState
+    decreases tr.len()
+{
+    if tr.len() == 0 { MState { bufs: Map::empty(), pend: Map::empty() } }
+    else { m_step(m_run(samples, fs, tr.drop_last()), samples, fs, tr.last().0, tr.last().1).0 }
+}
+pub open spec fn honest_ev(samples: Map<SequenceNumber, Seq<u8>>, fs: int, sn: SequenceNumber, k: int) -> bool {
+    samples.contains_key(sn) && 1 <= fs <= samples[sn].len() && 1 <= k <= ceil_div(samples[sn].len() as int, fs)
+}
+pub open spec fn honest(samples: Map<SequenceNumber, Seq<u8>>, fs: int, tr: Seq<(SequenceNumber, int)>) -> bool {
+    forall|i: int| 0 <= i < tr.len() ==> honest_ev(samples, fs, (#[trigger] tr[i]).0, tr[i].1)
+}
+// every buffer under assembly is exactly the single-sample run over the fragments that arrived for
+// that sample since its last delivery, and that set is still incomplete
+pub open spec fn m_inv(st: MState, samples: Map<SequenceNumber, Seq<u8>>, fs: int) -> bool {
+    &&& forall|sn: SequenceNumber| #[trigger] st.pend.contains_key(sn) <==> st.bufs.contains_key(sn)
+    &&& forall|sn: SequenceNumber| #[trigger] st.bufs.contains_key(sn) ==> {
+            &&& samples.contains_key(sn) && 1 <= fs <= samples[sn].len()
+            &&& valid_ks(st.pend[sn], ceil_div(samples[sn].len() as int, fs))
+            &&& !covers(st.pend[sn], ceil_div(samples[sn].len() as int, fs))
+            &&& st.bufs[sn] == run(fresh(samples[sn].len() as int, fs), samples[sn], fs, st.pend[sn])
+        }
+}
+
+pub proof fn lemma_trace_step(st: MState, samples: Map<SequenceNumber, Seq<u8>>, fs: int, sn: SequenceNumber, k: int)
+    requires m_inv(st, samples, fs), honest_ev(samples, fs, sn, k),
+    ensures ({
+        let r = m_step(st, samples, fs, sn, k);
+        let n = ceil_div(samples[sn].len() as int, fs);
+        &&& m_inv(r.0, samples, fs)                                                           // [frag.lemma.trace]
+        // delivered exactly when the fragments that arrived since the last delivery (in any order,
+        // with any duplicates, interleaved with other samples) now cover 1..=n — hence once, and
+        // never from an incomplete set
+        &&& (r.1.is_some() <==> covers(m_pend(st, sn).push(k), n))                            // [frag.lemma.trace]
+        // and what is delivered is exactly the bytes that were written
+        &&& (r.1.is_some() ==> r.1.unwrap() =~= samples[sn])                                  // [frag.lemma.trace]
+        // no other sample under assembly is touched
+        &&& (forall|o: SequenceNumber| o != sn ==> (r.0.bufs.contains_key(o) <==> st.bufs.contains_key(o)) && (st.bufs.contains_key(o) ==> r.0.bufs[o] == st.bufs[o]))   // [frag.lemma.trace]
+    }),
+{
+    let full = samples[sn];
+    let size = full.len() as int;
+    let n = ceil_div(size, fs);
+    let ks = m_pend(st, sn);
+    let ks2 = ks.push(k);
+    let before = m_before(st, full, fs, sn);
+    assert(before == run(fresh(size, fs), full, fs, ks)) by {
+        if !st.bufs.contains_key(sn) { assert(!st.pend.contains_key(sn)); assert(ks.len() == 0); }
+    }
+    assert(valid_ks(ks, n)) by { if !st.bufs.contains_key(sn) { assert(!st.pend.contains_key(sn)); } }
+    assert(ks2.drop_last() == ks);
+    assert(ks2.last() == k);
+    let after = step(before, full, fs, k);
+    assert(after == run(fresh(size, fs), full, fs, ks2));
+    assert(valid_ks(ks2, n)) by {
+        assert forall|i: int| 0 <= i < ks2.len() implies 1 <= #[trigger] ks2[i] <= n by { if i < ks.len() { assert(ks2[i] == ks[i]); } }
+    }
+    lemma_complete(full, fs, ks2);
+    let r = m_step(st, samples, fs, sn, k);
+    assert forall|o: SequenceNumber| #[trigger] r.0.bufs.contains_key(o) implies {
+            &&& samples.contains_key(o) && 1 <= fs <= samples[o].len()
+            &&& valid_ks(r.0.pend[o], ceil_div(samples[o].len() as int, fs))
+            &&& !covers(r.0.pend[o], ceil_div(samples[o].len() as int, fs))
+            &&& r.0.bufs[o] == run(fresh(samples[o].len() as int, fs), samples[o], fs, r.0.pend[o])
+        } by {
+        if o != sn { assert(st.bufs.contains_key(o)); }
+    }
+    assert forall|o: SequenceNumber| #[trigger] r.0.pend.contains_key(o) <==> r.0.bufs.contains_key(o) by {
+        if o != sn { assert(st.pend.contains_key(o) <==> st.bufs.contains_key(o)); }
+    }
+}
+
+pub proof fn lemma_trace(samples: Map<SequenceNumber, Seq<u8>>, fs: int, tr: Seq<(SequenceNumber, int)>)
+    requires honest(samples, fs, tr),
+    ensures m_inv(m_run(samples, fs, tr), samples, fs),                                       // [frag.lemma.trace]
+    decreases tr.len(),
+{
+    if tr.len() > 0 {
+        assert(honest(samples, fs, tr.drop_last())) by {
+            assert forall|i: int| 0 <= i < tr.drop_last().len() implies honest_ev(samples, fs, (#[trigger] tr.drop_last()[i]).0, tr.drop_last()[i].1) by { assert(tr.drop_last()[i] == tr[i]); }
+        }
+        lemma_trace(samples, fs, tr.drop_last());
+        assert(honest_ev(samples, fs, tr[tr.len() - 1].0, tr[tr.len() - 1].1));
+        lemma_trace_step(m_run(samples, fs, tr.drop_last()), samples, fs, tr.last().0, tr.last().1);
+    }
+}
+
+// the model step *is* the whole-view postcondition of the real new_datafrag for a writer-made DATAFRAG
+pub proof fn lemma_view_is_m_step(fa: FragmentAssembler, df: &DataFrag, samples: Map<SequenceNumber, Seq<u8>>, fs: int, k: int, pend: Map<SequenceNumber, Seq<int>>)
+    requires writer_frag(df, samples[df.writer_sn], fs, k), fa.fragment_size == fs,
+    ensures ({
+        let st = MState { bufs: fa.view_bufs(), pend };
+        let r = m_step(st, samples, fs, df.writer_sn, k);
+        &&& fa.same_fs(df)                                                                    // [frag.lemma.link]
+        &&& r.0.bufs =~= (if all_set(fa.after_bits(df)) { fa.view_bufs().remove(df.writer_sn) }
+                          else { fa.view_bufs().insert(df.writer_sn, (fa.after_buf(df), fa.after_bits(df))) })   // [frag.lemma.link]
+        &&& (r.1.is_some() <==> all_set(fa.after_bits(df)))                                   // [frag.lemma.link]
+        &&& (r.1.is_some() ==> r.1.unwrap() == fa.after_buf(df))                              // [frag.lemma.link]
+    }),
+{
+    lemma_after_is_step(fa, df, samples[df.writer_sn], fs, k);
+    let st = MState { bufs: fa.view_bufs(), pend };
+    assert(m_before(st, samples[df.writer_sn], fs, df.writer_sn) == fa.before_of(df));
 }
